@@ -58,6 +58,9 @@ Definition simple_match (m o : list (Z * cell)) : bool :=
 Definition char_ok (c : ascii) : bool := ((32 <=? code c) && (code c <=? 126)) || (code c =? 9).
 Definition text_ok (s : string) : bool := forallb char_ok (s2l s).
 Definition cell_text_ok (v : value) : bool := match v with VStr s => text_ok s | _ => true end.
+(* _try_make_number alone: every ASCII white space too *)
+Definition num_text_ok (s : string) : bool :=
+  forallb (fun c => ((32 <=? code c) && (code c <=? 126)) || ((9 <=? code c) && (code c <=? 13))) (s2l s).
 
 Definition check (c : case) : list Z :=
   match cin c, cobs c with
@@ -108,7 +111,7 @@ Definition check (c : case) : list Z :=
       | _ => [1; 27]
       end
   | InNumber s, o =>
-      if negb (text_ok s) then [3] else
+      if negb (num_text_ok s) then [3] else
       match o with
       | ObsNumber c => let ok := cell_match (try_make_number (CT s)) c in flag 1 ok ++ flag 28 ok
       | _ => [1; 28]
